@@ -1,7 +1,7 @@
 (* C05 — Token supply is conserved and share bookkeeping stays consistent.
    Only statements; the model is Ledger/State.v + Ledger/Ops.v, proofs are in
    Ledger/Conserve.v. *)
-From Verif Require Import Lib.Base Ledger.SharePool Ledger.State Ledger.Ops Ledger.ConserveMap Ledger.Conserve.
+From Verif Require Import Lib.Base Ledger.SharePool Ledger.State Ledger.Ops Ledger.ConserveMap Ledger.Conserve Ledger.TxAtomic Ledger.InvB Ledger.Total.
 
 (* Inv s: the three key sets are duplicate free, every escrow pool's share total
    equals the sum of the (debonding) delegations into it, and the recorded total
@@ -99,6 +99,86 @@ Theorem auth_fail_leaves_state : forall p s signer n fee,
   fst (auth p s signer n fee) <> ROk -> snd (auth p s signer n fee) = s.
 Proof. exact auth_fail_unchanged. Qed.
 Print Assumptions auth_fail_leaves_state.
+
+(* ---- failed transactions (discharges the premise C08 leaves abstract, for the staking and
+   governance-deposit handlers) ---- *)
+(* the handler part of EVERY transaction body (transfer, burn, add escrow, reclaim escrow,
+   allow, withdraw, governance submit at the deposit level, ledger-neutral ones such as
+   vote / amend commission): a failing handler has written nothing, i.e. the state is the
+   one authentication left *)
+Theorem tx_fail_leaves_post_auth_state : forall p s signer b gas_ok,
+  fst (exec_body p s signer b gas_ok) <> ROk -> snd (exec_body p s signer b gas_ok) = s.
+Proof. exact tx_fail_leaves_post_auth_state_l. Qed.
+Print Assumptions tx_fail_leaves_post_auth_state.
+
+(* a successful authenticate-and-pay does exactly: nonce matched, fee moved from the signer's
+   general balance to the block's accumulator, nonce + 1 (mod 2^64) *)
+Theorem auth_ok_effect : forall p s signer n fee,
+  fst (auth p s signer n fee) = ROk ->
+  let a := acct s signer in
+  nonce a = n /\ fee <= general a /\
+  post_auth p s signer n fee =
+    set_acct signer (with_nonce (with_general a (general a - fee)) ((nonce a + 1) mod two64))
+             (with_feeacc s (fee_acc s + fee)).
+Proof. exact auth_ok_effect_l. Qed.
+Print Assumptions auth_ok_effect.
+
+(* a transaction whose result is not ok changed nothing, or nothing but fee and nonce *)
+Theorem failed_tx_effect_staking : forall p s signer n fee size_gas_ok gas_ok b,
+  fst (exec_tx p s signer n fee size_gas_ok gas_ok b) <> ROk ->
+  snd (exec_tx p s signer n fee size_gas_ok gas_ok b) = s \/
+  snd (exec_tx p s signer n fee size_gas_ok gas_ok b) = post_auth p s signer n fee.
+Proof. exact failed_tx_effect_staking_l. Qed.
+Print Assumptions failed_tx_effect_staking.
+
+Theorem failed_tx_after_auth : forall p s signer n fee size_gas_ok gas_ok b,
+  fst (auth p s signer n fee) = ROk ->
+  fst (exec_tx p s signer n fee size_gas_ok gas_ok b) <> ROk ->
+  snd (exec_tx p s signer n fee size_gas_ok gas_ok b) = post_auth p s signer n fee.
+Proof. exact failed_tx_after_auth_l. Qed.
+Print Assumptions failed_tx_after_auth.
+
+(* ---- the invariant is decidable by the executable [inv_b], which the correspondence cases
+   evaluate on every dump of the real state ---- *)
+Theorem inv_b_correct : forall s, inv_b s = true <-> Inv s.
+Proof. exact inv_b_correct_l. Qed.
+Print Assumptions inv_b_correct.
+
+(* ---- totality: no block-aborting error under the parameter sanity conditions ---- *)
+Theorem slash_never_fatal : forall s addr amount, fst (slash s addr amount) = ROk.
+Proof. exact slash_never_fatal_l. Qed.
+Print Assumptions slash_never_fatal.
+
+(* rates are bounded by the commission denominator (commission.go:162) *)
+Theorem rewards_never_fatal : forall s scale factor who,
+  (forall a r, In (a, r) who -> r <= commission_den) -> fst (add_rewards s scale factor who) = ROk.
+Proof. exact add_rewards_never_fatal_l. Qed.
+Print Assumptions rewards_never_fatal.
+
+Theorem reward_single_never_fatal : forall s scale factor num den addr rate,
+  den <> 0 -> rate <= commission_den -> fst (add_reward_single s scale factor num den addr rate) = ROk.
+Proof. exact add_reward_single_never_fatal_l. Qed.
+Print Assumptions reward_single_never_fatal.
+
+(* TransferFromCommon incl. the dead-pool branch of the repaired code *)
+Theorem transfer_from_common_never_fatal : forall s to amount rate esc,
+  rate <= commission_den -> fst (transfer_from_common s to amount rate esc) = ROk.
+Proof. exact transfer_from_common_never_fatal_l. Qed.
+Print Assumptions transfer_from_common_never_fatal.
+
+(* BeginBlock fee disbursement: a non-empty commit when fees are pending (CometBFT), at most
+   as many voters as eligible validators; any weights (zero vote+next weight is guarded) *)
+Theorem fees_vq_never_fatal : forall p s pr n voters,
+  vq_done s = false -> (last_block_fees s <> 0 -> n <> 0) -> N.of_nat (length voters) <= n ->
+  fst (fees_vq p s pr n voters) = ROk.
+Proof. exact fees_vq_never_fatal_l. Qed.
+Print Assumptions fees_vq_never_fatal.
+
+(* EndBlock fee disbursement: not all three weights zero (ConsensusParameters.SanityCheck) *)
+Theorem fees_p_never_fatal : forall p s pr,
+  vq_done s = true -> p_w_propose p + p_w_vote p + p_w_next p <> 0 -> fst (fees_p p s pr) = ROk.
+Proof. exact fees_p_never_fatal_l. Qed.
+Print Assumptions fees_p_never_fatal.
 
 (* consistency is what makes debonding completion total: with Inv the
    epoch-change loop never fails (no block-aborting error) *)
